@@ -66,10 +66,13 @@ def family(v, wd, prop, name, tasks, progs, max_t, spawn="both", mc=True, what="
         exp_obs = (m.get("behaviour") or {}).get("obs") or []
         ti = int(m.get("task", 0)) - 1
         budget = 0 <= ti < len(exp_obs) and longest_run(exp_obs[ti]) > 128
+        progs = (m.get("behaviour") or {}).get("prog") or []
+        kinds = {st.get("k") for pr in progs for st in pr}
         v.add_violation(f"[{name}{', spawn_local' if local else ''}] {m.get('field')}: task {m.get('task')} expected {json.dumps(m.get('expected'))} "
                         f"got {json.dumps(m.get('got'))}", {k: x for k, x in m.items() if k != "got_obs"},
                         {"suite": "asyncm", "spawn_local": local, "more_than_61_local_polls_in_one_instant": local and many,
-                         "more_than_128_awaits_completed_in_one_poll": bool(budget)})
+                         "more_than_128_awaits_completed_in_one_poll": bool(budget),
+                         "task_calls_yield_now": "yield" in kinds, "sleep_first_polled_with_foreign_waker": "handpoll" in kinds})
     if int(tot.get("mismatch_count", 0)):
         v.cov["replay_mismatches"] = v.cov.get("replay_mismatches", 0) + int(tot["mismatch_count"])
 
@@ -87,6 +90,8 @@ def c05(tier):
            what="10 ms interval on a millisecond grid: ticks picked up <= 5 ms late (not missed) and later (missed)")
     family(v, wd, "C05", "chan", 2, "ProgsChan", 14, what="timeouts around receives, module-to-task messages (both event-set backends)", heap=True)
     family(v, wd, "C05", "life", 2, "ProgsLife", 16, what="module restarted from a task while another task has timers pending")
+    family(v, wd, "C05", "handpoll", 2, "ProgsHandPoll", 8, mc=False,
+           what="a sleep first polled with a waker that is not the awaiting task's (recorded finding F-C05-2)")
     if tier == "thorough":
         family(v, wd, "C05", "timers3_single", 1, "ProgsTimers1", 20, what="three timer steps in one task")
     v.cov["rule"] = ("every assignment of programs from the menus of MC_AsyncMod.tla to 1-2 tasks of one module, spawned with tokio::spawn and "
@@ -135,6 +140,7 @@ def c06(tier):
         family(v, wd, "C06", f"drain{k}", 3, f"ProgsDrain{k}", 6, mc=False, module="Gen_AsyncFam",
                what=f"{k} receives in one poll (tokio's cooperative budget is 128 operations per poll)")
     family(v, wd, "C06", "chan", 2, "ProgsChan", 14, what="small exhaustive menus with channels")
+    family(v, wd, "C06", "yield", 2, "ProgsYield", 8, mc=False, what="tasks that call tokio::task::yield_now (recorded finding F-C06-3)")
     v.cov["rule"] = ("families in which many polls become runnable inside one simulated instant: wake chains (task i wakes i+1), fan-out, many "
                      "timers with one deadline, one poll doing 40 channel operations; N up to 100 (thorough 2000); spawned with tokio::spawn "
                      "and spawn_local; every task must observe exactly the instant at which its awaited condition became true")
